@@ -129,6 +129,15 @@ func Creator(separator rune) func(ctx context.Context, name string, options map[
 			}
 		}
 
+		// Columns are matched with the file by name when reading, so the names must be unique.
+		seenFieldNames := make(map[string]bool, len(fieldNames))
+		for _, fieldName := range fieldNames {
+			if seenFieldNames[fieldName] {
+				return nil, physical.Schema{}, fmt.Errorf("csv header contains the column name '%s' more than once", fieldName)
+			}
+			seenFieldNames[fieldName] = true
+		}
+
 		schemaFields := make([]physical.SchemaField, len(fields))
 		for i := range fields {
 			schemaFields[i] = physical.SchemaField{
